@@ -311,3 +311,11 @@ class VPartial(V):
 
   def __init__(self, fn, args, kwargs):
     self.fn, self.args, self.kwargs = fn, args, kwargs
+
+
+class VGen(V):
+  """A lazy generator expression `(elt for target in it)` over a ghost iterator (no conditions)."""
+  __slots__ = ('it', 'target', 'elt', 'env')
+
+  def __init__(self, it, target, elt, env):
+    self.it, self.target, self.elt, self.env = it, target, elt, env
